@@ -73,7 +73,7 @@ def run(ctx):
     rows = vlib.coq_eval_shards("c16-%d-%s" % (ctx.seed, ctx.tier), HEADER, [cases[k]["coq"] for k in idx], shard=per)
     by = dict(zip(idx, rows))
 
-    known = dict(DEFAULT_FINDINGS)
+    known = {}   # only what known_findings.json lists is a known finding
     for f in vlib.known_findings("C16"):
         known[f["key"]] = f
     ws_open = known.get("alignment-counts-dropped-trailing-whitespace", {}).get("status") == "open"
